@@ -37,27 +37,6 @@ impl MvPoly {
 #[verifier::external_body] pub fn vec_repeat_zero(n: usize) -> (r: Vec<MvPoly>) ensures r@.len() == n, forall|j: int| 0 <= j < n ==> (#[trigger] r@[j]).terms@.len() == 0 { unimplemented!() }   // vec![P::zero(); n]
 
 // ---- specification ----
-// the point as an assignment
-pub open spec fn zf(point: Seq<Fr>) -> Asg { |j: int| if 0 <= j < point.len() { point[j]@ } else { f_zero() } }
-// sum_{j<k} (x_j - z_j) * w_j(x)
-pub open spec fn qsum(qs: Seq<MvPoly>, x: Asg, z: Asg, k: nat) -> FS decreases k {
-    if k == 0 { f_zero() } else { f_add(qsum(qs, x, z, (k - 1) as nat), f_mul(f_sub(x(k - 1), z(k - 1)), mve(qs[k - 1].terms@, x))) }
-}
-pub proof fn lemma_qsum_prefix(q1: Seq<MvPoly>, q2: Seq<MvPoly>, x: Asg, z: Asg, k: nat)
-    requires k <= q1.len(), k <= q2.len(), forall|j: int| 0 <= j < k ==> q1[j] == q2[j]
-    ensures qsum(q1, x, z, k) == qsum(q2, x, z, k)
-    decreases k
-{ if k > 0 { lemma_qsum_prefix(q1, q2, x, z, (k - 1) as nat); } }
-pub proof fn lemma_qsum_zero_polys(qs: Seq<MvPoly>, x: Asg, z: Asg, k: nat)
-    requires k <= qs.len(), forall|j: int| 0 <= j < k ==> (#[trigger] qs[j]).terms@.len() == 0
-    ensures qsum(qs, x, z, k) == f_zero()
-    decreases k
-{ if k > 0 { lemma_qsum_zero_polys(qs, x, z, (k - 1) as nat); lemma_mul_zero(f_sub(x(k - 1), z(k - 1))); ax_add_zero(f_zero()); } }
-pub proof fn lemma_qsum_at_z(qs: Seq<MvPoly>, z: Asg, k: nat)
-    requires k <= qs.len()
-    ensures qsum(qs, z, z, k) == f_zero()
-    decreases k
-{ if k > 0 { lemma_qsum_at_z(qs, z, (k - 1) as nat); ax_add_neg(z(k - 1)); lemma_mul_zero(mve(qs[k - 1].terms@, z)); ax_add_zero(f_zero()); } }
 // invariants, one instance per assignment x
 pub open spec fn outer_inv(x: Asg, p: Seq<(Fr, Term)>, qs: Seq<MvPoly>, z: Asg, i: int, cur: Seq<(Fr, Term)>, k: FS) -> bool {
     mve(p, x) == f_add(f_add(qsum(qs, x, z, i as nat), mve(cur, x)), k)
